@@ -45,7 +45,7 @@ BIN = os.path.join(TARGET, "release", "flounder_replay")
 # property -> list of (command, args for quick use, args for thorough use)
 NATIVE = {
     "C01": [("movegen", ["--what=legal", "--walks=150", "--plies=30"], ["--what=legal", "--walks=1500", "--plies=60"]),
-            ("movegen-small", ["--secs=60"], ["--secs=600"])],
+            ("movegen-small", ["--secs=20"], ["--secs=600"])],
     "C02": [("movegen", ["--what=make", "--walks=100", "--plies=30"], ["--what=make", "--walks=800", "--plies=60"])],
     "C17": [("movegen", ["--what=quiescence", "--walks=150", "--plies=30"], ["--what=quiescence", "--walks=1500", "--plies=60"])],
     "C15": [("tt-seq", ["--len=4", "--bulk=1300000"], ["--len=5", "--bulk=6000000"])],
@@ -56,7 +56,7 @@ NATIVE = {
     "C06": [("search-interrupt", ["--depth=3", "--maxnodes=120"], ["--depth=3", "--maxnodes=600"])],
     "C03": [("bestmove", [], []), ("uci-session", ["--positions=40"], ["--positions=300"])],
     "C07": [("overrun", [], [])],
-    "C05": [("minimax", ["--walks=300", "--depth=3"], ["--walks=3000", "--depth=3"])],
+    "C05": [("minimax", ["--walks=300", "--depth=3"], ["--walks=3000", "--depth=3", "--backrank=60"])],
     "C08": [("mate-in-one", ["--walks=15"], ["--walks=300"])],
     "C13": [("newgame", ["--positions=8", "--depth=3", "--long=8", "--longdepth=6"], ["--positions=150", "--depth=5", "--long=8", "--longdepth=6"])],
     "C09": [("game-history", ["--games=40", "--plies=20"], ["--games=400", "--plies=40"])],
@@ -71,7 +71,8 @@ KANI = {
     # assumed specifications of std scalar functions (contracts/std.vspec) checked against std itself for every argument
     "C10": [("std_checked_shifts", "assumed std spec u64::checked_shl / checked_shr == (n < 64 ? Some(x << n / x >> n) : None): all u64 x u32, loop-free")],
     "C05": [("std_saturating_add_i32", "assumed std spec i32::saturating_add: all i32 x i32, loop-free"),
-            ("std_max_min_i32", "assumed std spec cmp::max / cmp::min on i32 (the only instantiation in the engine): all i32 x i32, loop-free")],
+            ("std_max_min_i32", "assumed std spec cmp::max / cmp::min on i32 (the only instantiation in the engine): all i32 x i32, loop-free"),
+            ("std_int_extras", "assumed std specs i32::saturating_sub, i32::abs: all i32 (x i32), loop-free")],
     "C04": [("std_char_fns", "assumed std specs char::to_digit(10), char::to_ascii_lowercase, char::is_lowercase (on ASCII letters): every char, loop-free")],
 }
 # harnesses that are complete but too slow for the quick tier: thorough tier only
